@@ -560,3 +560,44 @@ def ser_scratch_files(ctx):
     if a and b:
         ctx.prove(isinstance(a[0], str) and isinstance(b[0], str) and a[0] != b[0], 'C09+C06:O9.2.scratch-files-of-the-two-writers-are-distinct', info='%r vs %r' % (a[0], b[0]))
         ctx.prove(a[0] != 'dump.bin' and b[0] != 'dump.bin', 'C09+C06:O9.2.dump-path-only-renamed-onto')
+
+
+@unit(name='serializer.deserialize', relpath=SMOD, qual=['Serializer.deserialize'], props=['C09', 'C06'], cases=[dict(mode=m) for m in ('memory', 'file', 'user')],
+      doc='O9.2 (inverse): deserialize reads the stored dump - the in-memory bytes, or the dump path itself (never a scratch file) - through '
+          'gzip+pickle (T-GZIP/T-PICKLE: the value handed to serialize), or hands the dump path to the user deserializer and prefixes None')
+def ser_deserialize(ctx, mode):
+    ser, data, B, pid = mk_ser(ctx, mode != 'memory')
+    if mode == 'user':
+        ctx.setcell(ser, ctx.cell(ser).with_field(SF('deserializer'), Callable_('user:deserializer')))
+    opened = []
+
+    def opener(I, args, kw):
+        opened.append((args[0], args[1] if len(args) > 1 else 'r'))
+        return I.ctx.alloc(FileObj(args[0], args[1] if len(args) > 1 else 'r'))
+
+    def gz(I, args, kw):
+        return I.ctx.alloc(GzCtx(kw.get('fileobj', args[0] if args else None)))
+
+    def bytesio(I, args, kw):
+        return I.ctx.alloc(PObj('BytesIO', {'value': args[0] if args else None}))
+
+    def load(I, args, kw):
+        g = I.ctx.cell(args[0])
+        src = I.ctx.cell(g.target)
+        return ('UNGZ', src.name if isinstance(src, FileObj) else src.fields['value'])
+    users = []
+
+    def user_deser(I, f, args, kw):
+        users.append(tuple(args))
+        return ('e1', 'e0', 'cluster')
+    mod = source.load(SMOD)
+    fn, ci = mod.find('Serializer.deserialize')
+    I = Interp(ctx, externals={'open': opener, 'gzip.GzipFile': gz, 'BytesIO': bytesio, 'io.BytesIO': bytesio, 'pickle.load': load},
+               hooks={'call:user': user_deser})
+    r = I.call_funcdef(fn, mod, 'Serializer', ser, [], {}, None, 'Serializer.deserialize')
+    if mode == 'memory':
+        ctx.prove(r == ('UNGZ', data) and not opened, 'C09:O9.2.memory-dump-is-read-back')
+    elif mode == 'file':
+        ctx.prove(r == ('UNGZ', 'dump.bin') and opened == [('dump.bin', 'rb')], 'C09+C06:O9.2.file-dump-read-from-the-dump-path', info=repr(opened))
+    else:
+        ctx.prove(users == [('dump.bin',)] and r == (None, 'e1', 'e0', 'cluster') and not opened, 'C09:O9.2.user-deserializer-gets-the-dump-path')
